@@ -1432,3 +1432,44 @@ async fn d37_get_at_ignores_all_but_the_last_pending_version() {
 	assert_eq!(after.as_deref(), Some(&b"v10"[..]), "precondition: after commit the version at ts 15 is v10");
 	assert_eq!(inside, after, "D37: get_at(k, 15) inside the transaction does not reflect its own pending version @10");
 }
+
+// D39 (probe): with the B+tree version index, a flush writes the index entries first and removes the memtable from the
+// immutable queue later; a history scan in between merges both sources.  Are versions listed twice?
+#[tokio::test(flavor = "multi_thread", worker_threads = 4)]
+async fn d39_history_during_flush_lists_versions_twice() {
+	let d = td();
+	let opts = mk_opts(d.path().to_path_buf(), |o| {
+		o.enable_versioning = true;
+		o.enable_versioned_index = true;
+		o.enable_vlog = true;
+		o.vlog_value_threshold = 0;
+	});
+	let tree = Tree::new(Arc::clone(&opts)).unwrap();
+	let n = 3000usize;
+	for i in 0..n {
+		let mut tx = tree.begin().unwrap();
+		tx.set_at(format!("k{:05}", i % 50).as_bytes(), format!("v{i}").as_bytes(), 1000 + i as u64).unwrap();
+		tx.commit().await.unwrap();
+	}
+	let t2 = tree.clone();
+	let flusher = tokio::task::spawn_blocking(move || {
+		t2.flush().unwrap();
+	});
+	let mut worst = 0usize;
+	let mut scans = 0usize;
+	while !flusher.is_finished() || scans < 3 {
+		let tx = tree.begin().unwrap();
+		let mut it = tx.history(b"k", b"l").unwrap();
+		let mut count = 0usize;
+		let mut ok = it.seek_first().unwrap();
+		while ok {
+			count += 1;
+			ok = it.next().unwrap();
+		}
+		worst = worst.max(count);
+		scans += 1;
+		if scans > 2000 { break; }
+	}
+	flusher.await.unwrap();
+	assert!(worst <= n, "D39: a history scan during the flush listed {worst} versions although only {n} exist ({scans} scans)");
+}
